@@ -13,7 +13,10 @@ package main
 // goes through the oracle; a deterministic sample of them is also emitted in group "ops"), the
 // high-entropy real-constant cases (flavour "rand") and the low-entropy real-constant cases
 // (flavour "low": runs of one byte value across the MaxDataOp cut / the buffer wrap / the trailing
-// data, constant, periodic and small-alphabet sources; both tiers).
+// data, constant, periodic and small-alphabet sources; both tiers) and the end-of-source cases
+// (classes real/end@*: the source ends MaxDataOp-1 .. MaxDataOp+2 blocks after the start, a matched
+// block, a MaxDataOp cut or a buffer wrap, so that the split of the trailing data runs with pending
+// data at any buffer offset; both tiers).
 //
 // Oracle (independent of the model), on the operations the implementation emitted:
 //   own replay == source and ApplySingle replay == source; every block range names an existing
@@ -743,6 +746,9 @@ type c11Aim struct {
 	Rel    int    // first byte of the run relative to the anchor
 	N      int    // length of the run (< 0: up to the end of the source)
 	Val    int
+	// Then != nil: no run is written; the source is CUT at anchor+Rel and these segments are
+	// appended, so that the source ends a chosen distance after the anchor (see c11EndCases).
+	Then []c11Seg
 }
 
 // c11Overlay is the run actually written: bytes [At, At+N) of the source are Val.
@@ -752,6 +758,15 @@ type c11Overlay struct {
 	At       int    `json:"at"`
 	N        int    `json:"n"`
 	Val      int    `json:"val"`
+}
+
+// c11Cut is the cut actually made: the source built from the segments is cut to its first At
+// bytes and the segments Then are appended.
+type c11Cut struct {
+	Anchor   string   `json:"anchor"`
+	AnchorAt int      `json:"anchorAt"`
+	At       int      `json:"at"`
+	Then     []c11Seg `json:"then"`
 }
 
 type c11Big struct {
@@ -766,6 +781,7 @@ type c11Big struct {
 	OldConst [][3]int // {file, block, value}: that block of that old file is filled with the value
 	Aim      *c11Aim
 	Overlay  *c11Overlay // set by c11AimOverlay
+	Cut      *c11Cut     // set by c11AimOverlay
 }
 
 // structured block: first byte a, fill f, last byte z (all different from each other), so that
@@ -939,9 +955,15 @@ func (bc *c11Big) buildLow(r *lib.Rng) (olds [][]byte, src []byte) {
 			f[i] = byte(cb[2])
 		}
 	}
+	return olds, bc.appendLow(r, olds, nil, bc.Segs)
+}
+
+// appendLow appends the segments to src (flavour "low").
+func (bc *c11Big) appendLow(r *lib.Rng, olds [][]byte, src []byte, segs []c11Seg) []byte {
+	bs := bc.blockSize()
 	type run struct{ from, to, val int }
 	var runs []run
-	for _, s := range bc.Segs {
+	for _, s := range segs {
 		var piece []byte
 		switch s.Kind {
 		case "noise", "fresh":
@@ -975,7 +997,7 @@ func (bc *c11Big) buildLow(r *lib.Rng) (olds [][]byte, src []byte) {
 	for _, u := range runs { // a run is exactly as long as stated
 		c11IsolateRun(src, u.from, u.to, u.val)
 	}
-	return
+	return src
 }
 
 // the noise letters next to the run [from, to) of val are made different from val
@@ -995,8 +1017,10 @@ func c11IsolateRun(src []byte, from, to, val int) {
 // operation (the flush before the buffer is wrapped), "tail" = start of the last operation when it
 // is a data operation, "start" = offset 0.  A missing kind falls back to the next one.  The probe
 // only aims the generator: whatever it returns, the case that is then run and judged is an
-// ordinary input.  Returns false when the probe itself did not come back (the caller drops ctx).
-func c11AimOverlay(ctx *wsync.Context, bc *c11Big, olds [][]byte, src []byte) bool {
+// ordinary input.  With Aim.Then the source is cut at the aimed position and the segments Then are
+// appended instead (drawn from r).  Returns the source and false when the probe itself did not come
+// back (the caller drops ctx).
+func c11AimOverlay(ctx *wsync.Context, bc *c11Big, olds [][]byte, src []byte, r *lib.Rng) ([]byte, bool) {
 	a := bc.Aim
 	bs := bc.blockSize()
 	anch := map[string][]int{"start": {0}}
@@ -1054,6 +1078,17 @@ func c11AimOverlay(ctx *wsync.Context, bc *c11Big, olds [][]byte, src []byte) bo
 		}
 	}
 	at0 := anch[kind][a.Which%len(anch[kind])]
+	if a.Then != nil {
+		cut := at0 + a.Rel
+		if cut < 0 {
+			cut = 0
+		}
+		if cut > len(src) {
+			cut = len(src)
+		}
+		bc.Cut = &c11Cut{Anchor: kind, AnchorAt: at0, At: cut, Then: a.Then}
+		return bc.appendLow(r, olds, src[:cut:cut], a.Then), alive
+	}
 	from, to := at0+a.Rel, at0+a.Rel+a.N
 	if a.N < 0 {
 		to = len(src)
@@ -1071,7 +1106,7 @@ func c11AimOverlay(ctx *wsync.Context, bc *c11Big, olds [][]byte, src []byte) bo
 		c11IsolateRun(src, from, to, a.Val)
 		bc.Overlay = &c11Overlay{Anchor: kind, AnchorAt: at0, At: from, N: to - from, Val: a.Val}
 	}
-	return alive
+	return src, alive
 }
 
 func c11LowCases(r *lib.Rng, tier string) []*c11Big {
@@ -1180,6 +1215,106 @@ func c11LowCases(r *lib.Rng, tier string) []*c11Big {
 			bc.Segs = []c11Seg{{Kind: "period", N: length(bs), Val: r.Intn(150), Alpha: r.Range(2, 4), Period: per}}
 			bc.Name = fmt.Sprintf("periodic/bs%d/p%d/%d", bs, per, i)
 		}
+		out = append(out, bc)
+	}
+	return out
+}
+
+// ---------- (c") the source ENDS a critical distance after a match / a data cut / a buffer wrap ----------
+//
+// The end of the source is the only place where the differ emits pending data that the regular
+// "MaxDataOp reached" flush has not seen: up to about one block more than MaxDataOp, split there
+// into several data operations.  How much is pending, and WHERE in the reusable buffer it starts,
+// depends on what happened last before the trailing fresh bytes: nothing (offset 0: the pure
+// fresh sources of real/nomatch and real/smallbs), a matched block (pending data starts behind
+// it: any buffer offset), a MaxDataOp cut, or a buffer wrap (offset 0 again, then matches move it).
+// The high-entropy match cases end their sources anywhere; the low-entropy run cases end them a
+// few blocks after a buffer fill.  These cases end the source L bytes after such an event, for L
+// on and around MaxDataOp, MaxDataOp + one and two blocks and the length that exactly fills the
+// buffer, at every phase of the event relative to the block grid:
+//
+//	end@start : [0 | 1 | 2 | bs/2 | bs-2 | bs-1 | bs | bs+1 | 2bs-1 | 2bs+3 fresh bytes] [0..3 old blocks] [tail of L]
+//	end@wrap  : noise of one or two buffer fills, CUT at (where the probe run shows the buffer wrap) + rel,
+//	            then [0..3 old blocks] [tail of L]; rel as the fresh lead above, also -1 and -bs-1
+//	end@mark  : the same at the end of a data operation of MaxDataOp bytes
+//
+// Tail: noise (letters 0..199, old files use 200..255: nothing matches by accident), sometimes one
+// byte value or a sticky small alphabet (hash-unchanged path up to the end of the source).
+// Oracle only (group ""), both tiers.
+func c11EndCases(r *lib.Rng, tier string) []*c11Big {
+	M := wsync.MaxDataOp
+	noise := func(n int) c11Seg { return c11Seg{Kind: "noise", N: n} }
+	// corpus: one matched block, then a little more than MaxDataOp of fresh bytes up to the end of the
+	// source (seeded/C11-5: the split of the trailing data sliced the buffer as if the pending data
+	// started at offset 0); the same behind a fresh lead, at the block size the tools use
+	out := []*c11Big{
+		{BS: 16384, Name: "corpus/block-then-4MiB+100", Flavour: "low", Pref: -1, OldBlk: []int{1}, OldTail: []int{0},
+			Segs: []c11Seg{{Kind: "match", N: 1}, noise(M + 100)}},
+		{Name: "corpus/lead-block-then-4MiB+bs-1001", Flavour: "low", Pref: 0, OldBlk: []int{2}, OldTail: []int{777},
+			Segs: []c11Seg{noise(1000), {Kind: "match", N: 1, At: 1}, noise(M + c11BS - 1001)}},
+	}
+	nEnd, nLong := 8, 1
+	if tier != "quick" {
+		nEnd, nLong = 180, 1<<30
+	}
+	bss := []int{2, 3, 4, 7, 16, 255, 1024, 4096, 16384, c11BS}
+	for i := 0; i < nEnd; i++ {
+		bs := bss[r.Intn(len(bss))]
+		if r.Chance(1, 3) {
+			bs = c11BS
+		}
+		bc := &c11Big{BS: bs, Flavour: "low", Pref: -1}
+		anchor := []string{"start", "wrap", "start", "wrap", "mark", "start", "wrap", "wrap"}[i%8]
+		// the library; k matched blocks precede the tail (k = 0: the tail follows the anchor directly)
+		k := []int{1, 1, 1, 1, 2, 3, 0}[r.Intn(7)]
+		bc.OldBlk, bc.OldTail, bc.Pref = []int{r.Range(max(k, 1), 4)}, []int{r.Intn(bs)}, int64(r.Range(-1, 0))
+		rel := []int{0, 0, 0, 1, 2, bs / 2, bs - 2, bs - 1, bs, bs + 1, 2*bs - 1, 2*bs + 3, -1, -bs - 1}[r.Intn(14)]
+		if rel < 0 && anchor == "start" {
+			rel = 0
+		}
+		// d: where the tail starts in the buffer when the anchor is buffer offset 0 (start, wrap)
+		d := max(rel, 0) + k*bs
+		fit := 2*bs + M - d // the tail that exactly fills the buffer
+		tails := []int{M - 1, M, M + 1, M + 1, M + 2, M + 1 + r.Intn(bs), M + 1 + r.Intn(bs), M + 1 + r.Intn(bs), M + bs/2, M + bs - 2, M + bs - 1, M + bs, M + bs + 1,
+			fit - 1, fit, fit, fit + 1, M + 2*bs - 2, M + 2*bs - 1, M + 2*bs, M + 2*bs + 5, M - bs, M - bs + 1, r.Intn(M), []int{0, 1, bs - 1, bs, bs + 1}[r.Intn(5)]}
+		L := tails[r.Intn(len(tails))]
+		if L < 0 {
+			L = 0
+		}
+		tail := noise(L)
+		tailKind := "noise"
+		switch r.Intn(8) {
+		case 0:
+			tail, tailKind = c11Seg{Kind: "const", N: L, Val: r.Intn(c11NoiseLetters)}, "const"
+		case 1:
+			tail, tailKind = c11Seg{Kind: "sticky", N: L, Val: r.Intn(150), Alpha: r.Range(2, 4), Stick: []int{4, 6, 7}[r.Intn(3)]}, "sticky"
+		}
+		var then []c11Seg
+		if k > 0 {
+			then = append(then, c11Seg{Kind: "match", N: k, File: 0, At: r.Intn(bc.OldBlk[0] - k + 1)})
+		}
+		if L > 0 {
+			then = append(then, tail)
+		}
+		if anchor == "start" {
+			bc.Segs = append([]c11Seg{noise(rel)}, then...)
+		} else {
+			n := M + 4*bs + r.Range(0, 2*bs+2) // one buffer fill and a bit: one MaxDataOp cut, one wrap
+			if nLong > 0 && r.Chance(1, 4) {
+				nLong--
+				n += M + 2*bs
+			}
+			if r.Chance(1, 4) { // old blocks lead the prefix: the first data cut does not start at offset 0
+				at := r.Intn(bc.OldBlk[0])
+				bc.Segs = append(bc.Segs, noise([]int{0, 1, bs - 1, bs + 1}[r.Intn(4)]), c11Seg{Kind: "match", N: r.Range(1, bc.OldBlk[0]-at), File: 0, At: at})
+			}
+			bc.Segs = append(bc.Segs, noise(n))
+			bc.Aim = &c11Aim{Anchor: anchor, Which: r.Intn(4), Rel: rel, Then: then}
+			if then == nil {
+				bc.Aim.Then = []c11Seg{}
+			}
+		}
+		bc.Name = fmt.Sprintf("end@%s/bs%d/k%d/rel%d/%s%d/%d", anchor, bs, k, rel, tailKind, L, i)
 		out = append(out, bc)
 	}
 	return out
@@ -1361,6 +1496,11 @@ func c11RunBig(c *Ctx, r *lib.Rng) error {
 			return err
 		}
 	}
+	for _, bc := range c11EndCases(r.Fork(), c.Tier) {
+		if err := c11RunOneBig(c, ctxs, bc, r.Fork()); err != nil {
+			return err
+		}
+	}
 	return nil
 }
 
@@ -1374,9 +1514,12 @@ func c11RunOneBig(c *Ctx, ctxs map[int]*wsync.Context, bc *c11Big, cr *lib.Rng) 
 		ctxs[bs] = wsync.NewContext(bs)
 	}
 	ctx := ctxs[bs]
-	if bc.Aim != nil && !c11AimOverlay(ctx, bc, olds, src) {
-		ctx = wsync.NewContext(bs) // the probe run never came back and may still use the old one
-		ctxs[bs] = ctx
+	if bc.Aim != nil {
+		var alive bool
+		if src, alive = c11AimOverlay(ctx, bc, olds, src, cr); !alive {
+			ctx = wsync.NewContext(bs) // the probe run never came back and may still use the old one
+			ctxs[bs] = ctx
+		}
 	}
 	in := &c11Input{bs: bs, olds: olds, src: src, pref: bc.Pref}
 	var ops []c11Op
@@ -1429,6 +1572,9 @@ func c11RunOneBig(c *Ctx, ctxs map[int]*wsync.Context, bc *c11Big, cr *lib.Rng) 
 	if bc.Overlay != nil {
 		input["overlay"] = bc.Overlay // bytes [at, at+n) of the source built from the segments are val
 	}
+	if bc.Cut != nil {
+		input["cut"] = bc.Cut // the source built from the segments is cut to its first `at` bytes, then the segments `then` follow
+	}
 	c.Out.Emit(&lib.Case{Group: group, Coq: coq, Class: class, Nontrivial: len(ops) >= 2,
 		Input:  input,
 		Obs:    map[string]interface{}{"ops": c11OpsJ(ops, false), "dataSizes": sizes},
@@ -1451,6 +1597,16 @@ func runC11(c *Ctx) error {
 		r := c.Rng.Fork()
 		ctxs := map[int]*wsync.Context{}
 		for _, bc := range c11LowCases(r.Fork(), c.Tier) {
+			if err := c11RunOneBig(c, ctxs, bc, r.Fork()); err != nil {
+				return err
+			}
+		}
+		return nil
+	}
+	if c.Replay == "end" { // developer switch: only the end-of-source real-constant cases
+		r := c.Rng.Fork()
+		ctxs := map[int]*wsync.Context{}
+		for _, bc := range c11EndCases(r.Fork(), c.Tier) {
 			if err := c11RunOneBig(c, ctxs, bc, r.Fork()); err != nil {
 				return err
 			}
